@@ -37,7 +37,7 @@ constexpr int KEYS = 8;
 void generate(Rng& r, Workload& w, int tier) {
     int part = int(r.below(P_N));
     w.cfg = {part, int64_t(r.below(5)), int64_t(r.below(4))};
-    int n = int(r.range(1, tier ? 80 : 50));
+    int n = int(r.range(1, tier ? 200 : 50));
     for (int i = 0; i < n; ++i) {
         int64_t code;
         const bool lru = part <= P_LRU_MAP || part >= P_LRU_SET_HEAP;
